@@ -374,7 +374,8 @@ def run_patterns(ctx):
 
 
 def run_random_patterns(ctx):
-    """operands of the SAME shape but DIFFERENT sparsity patterns (typed generator of C06/C07): the semiring
+    """operands of the same shape — or of shapes that BROADCAST (size-1 and missing leading dimensions, scalars) — but DIFFERENT
+    sparsity patterns (typed generator of C06/C07): the semiring
     operation on PatternedTensors is the elementwise operation on what they denote, whatever their defaults"""
     from . import ptgen
     dtype = torch.float64
@@ -389,8 +390,20 @@ def run_random_patterns(ctx):
         for it in range(n):
             types = [ptgen.random_type(ctx.rng, depth=2) for _ in range(ctx.rng.randint(1, 3))]
             kw = dict(bool_=True) if name == 'bool' else dict(values=vals, defaults=defaults, specials=0.1)
-            x = ptgen.random_pt(ctx.rng, types, p_dense=0.2, max_phys=200, **kw)
-            y = ptgen.random_pt(ctx.rng, types, p_dense=0.2, max_phys=200, **kw)
+            xtypes = ytypes = types
+            if it % 3 == 1:
+                # BROADCAST: one operand has size 1 in some dimensions, or lacks leading dimensions (down to a scalar), where the other
+                # has a pattern — in particular a diagonal (the same physical axis in two dimensions)
+                if len(types) >= 2 and ctx.rng.random() < 0.6:
+                    i, j = ctx.rng.sample(range(len(types)), 2)
+                    types[j] = types[i]
+                bt = [('atom', 1) if ctx.rng.random() < 0.6 else ty for ty in types]
+                bt = bt[ctx.rng.randint(0, len(bt)):] if ctx.rng.random() < 0.5 else bt
+                xtypes, ytypes = (bt, types) if ctx.rng.random() < 0.5 else (types, bt)
+                kw = dict(kw, p_share=0.6)
+                ctx.count(f'rpattern.{name}.broadcast')
+            x = ptgen.random_pt(ctx.rng, xtypes, p_dense=0.2, max_phys=200, **kw)
+            y = ptgen.random_pt(ctx.rng, ytypes, p_dense=0.2, max_phys=200, **kw)
             if x.numel() > 4000:
                 continue
             for op in ('add', 'mul', 'sub'):
